@@ -63,13 +63,11 @@ func (t *timeoutFuture) Error() error {
 		return t.err
 	}
 
-	errC := make(chan error)
+	// The channel is buffered so that a result which arrives before we start
+	// waiting below is not dropped (which would turn it into a timeout).
+	errC := make(chan error, 1)
 	go func() {
-		err := t.wrapped.Error()
-		select {
-		case errC <- err:
-		default:
-		}
+		errC <- t.wrapped.Error()
 	}()
 
 	var err error
